@@ -179,7 +179,7 @@ def run_source(src, ctx, tag, what):
 
 
 def cases(tier):
-    return 3200 if tier == "quick" else 200000
+    return 3200 if tier == "quick" else 400000
 
 
 def strategy(hazards):
